@@ -8,6 +8,7 @@ for d in sorted(glob.glob(f'{V}/seeded/*/')):
     sid = os.path.basename(d.rstrip('/'))
     if not sid.startswith(pref): continue
     mp = d + 'meta.json'; m = json.load(open(mp))
+    if m.get('obsolete'): print(sid, 'obsolete (skipped)'); continue
     props = list(m.get('checks_run', {}).keys()) or [m['breaks_property']]
     r = subprocess.run([f'{V}/tools/seedrun.sh', d + 'patch.diff'] + props, capture_output=True, text=True).stdout
     res = {}
